@@ -206,6 +206,15 @@ func (r *posRunner) compare(call string, want *posmodel.State, after chain.View)
 // invariants evaluates the state-derived invariants on a view.
 func (r *posRunner) invariants(call string, v chain.View, notes []string) {
 	ns := strings.Join(uniqSorted(notes), "+")
+	// C10: the fee distribution of BeginBlock empties the fee collector, whatever the denominations
+	// the fees were paid in (what is not paid out stays in the pos module account)
+	if call == "BeginBlock" && r.want("C10") && r.height > 1 {
+		// (the staking denomination is the model's business: an award minted to the collector's own
+		// address arrives after the distribution; nothing mints the other denominations)
+		if o := v.Other[chain.FeeAddr]; o != "" {
+			r.report("C10", "inv:fee-collector-not-empty-after-distribution|"+ns, fmt.Sprintf("after BeginBlock at height %d the fee collector still holds %s", r.height, o))
+		}
+	}
 	// C02 (i),(ii)
 	if !v.SumBalances().Equal(v.Supply) {
 		r.report("C02", fmt.Sprintf("inv:sum-balances!=supply|%s|%s", call, ns), fmt.Sprintf("after %s at height %d: sum of balances %s != supply %s", call, r.height, v.SumBalances(), v.Supply))
@@ -650,6 +659,34 @@ func RunPosHistory(cfg chain.Config, prelude, blocks []chain.Block, props ...str
 	r.d = d
 	r.cur = r.view()
 	hk := r.hooks()
+	// a genesis that carries signing state (C08): InitChain imports it position by position, and the
+	// history oracle starts from it (ring positions below the offset, oldest first; the ring has not
+	// wrapped in these configurations)
+	if r.want("C08") {
+		for _, g := range cfg.GenSigning {
+			a := string(chain.Addr(g.Key))
+			missed := map[int64]bool{}
+			for _, i := range g.Missed {
+				missed[i] = true
+			}
+			var h []bool
+			for i := int64(0); i < g.Offset; i++ {
+				h = append(h, missed[i])
+			}
+			r.voteHist[a] = h
+			info, bits, ok := r.cur.Info(g.Key)
+			var got []int64
+			for i, m := range bits {
+				if m {
+					got = append(got, i)
+				}
+			}
+			sort.Slice(got, func(i, j int) bool { return got[i] < got[j] })
+			if !ok || info.IndexOffset != g.Offset || info.StartHeight != g.Start || info.MissedBlocksCounter != int64(len(g.Missed)) || fmt.Sprint(got) != fmt.Sprint(append([]int64{}, g.Missed...)) {
+				r.report("C08", "genesis-import|signing-state", fmt.Sprintf("genesis gives validator %s start %d offset %d misses at ring positions %v; after InitChain: found=%v start %d offset %d counter %d misses at %v", shortAddr(a), g.Start, g.Offset, g.Missed, ok, info.StartHeight, info.IndexOffset, info.MissedBlocksCounter, got))
+			}
+		}
+	}
 	// InitChain validators (C05)
 	if r.want("C05") {
 		st := posmodel.FromView(r.cur)
@@ -715,7 +752,14 @@ func (r *posRunner) classifyPanic(br chain.BlockResult, b chain.Block, before ch
 		r.report("C06", "EndBlock-panic|"+r.setContext(st), what)
 		// a jailed validator that has consensus power (an entry in the staked-power index) is
 		// what C09 forbids; EndBlock returning nothing is how it shows
-		if strings.Contains(r.setContext(st), "index-entry-for-jailed") {
+		jailedInIndex := strings.Contains(r.setContext(st), "index-entry-for-jailed")
+		for _, kv := range r.cur.PowerIndex {
+			// (also a jailed validator that is no longer staked: force-unstaked and jailed in one step)
+			if v := st.Vals[string(kv.V)]; v != nil && v.Exists && v.Jailed {
+				jailedInIndex = true
+			}
+		}
+		if jailedInIndex {
 			r.report("C09", "EndBlock-panic|"+r.setContext(st), what)
 		}
 	default:
